@@ -461,7 +461,7 @@ func Check() *common.Check {
 		Rule: "every history over the parser alphabet (17 operations: Parse valid/invalid, ParseWithPositions multi-line invalid, ParseContext live / already cancelled / cancelled at the 6th poll, " +
 			"ParseWithRecovery, parse past the recursion limit, ApplyOptions strict / mysql, Reset, Release, PutParser with the same object then used as the next holder's, NewParser) and the tokenizer alphabet " +
 			"(11 operations: Tokenize valid / unterminated string / comments / larger than MaxInputSize, TokenizeContext cancelled / cancelled at the 4th poll, SetDialect, SetLogger, Reset, PutTokenizer, New) of length 0..4 (quick) / 0..5 (thorough), " +
-			"each executed from a newly constructed instance with the reference configuration in lock-step, followed by each of 12 parser (two of them ParseWithPositions on hand-built conversion results without / with a short position table) / 9 tokenizer probes (three of them inputs without a token) on its own re-execution; plus one-operation histories feeding every proper token prefix of 10 statements and 6 inputs nested past the depth limit to each of 4 parse entry points, " +
+			"each executed from a newly constructed instance with the reference configuration in lock-step, followed by each of 15 parser (two of them ParseWithPositions on hand-built conversion results without / with a short position table, three of them observing where the context is polled and where a cancellation at the 4th / 9th poll lands) / 9 tokenizer probes (three of them inputs without a token) on its own re-execution; plus one-operation histories feeding every proper token prefix of 10 statements and 6 inputs nested past the depth limit to each of 4 parse entry points, " +
 			"and every byte prefix of 3 inputs to both tokenize entry points; pool hand-out: every history of length <=5 (6) over 9 pool operations (GetParser, configure + parse, PutParser, Release + PutParser, ParseMultiWithRecovery, RecoveryResult.Release once / again, GetTokenizer, use + PutTokenizer) on the real pools (one P, collector off): no instance owned twice at any step or in the final drain, every parser handed out answers the probes like a new one; distinct = distinct history; non-trivial = at least two operations",
 		Assume: []string{
 			"reference model: configuration = (strict, dialect) for a parser, (dialect) for a tokenizer; New/Get/Put give the default, ApplyOptions/SetDialect update it, Parser.Reset gives the default (documented: clears the state for reuse from the pool), Parser.Release keeps it (same holder), Tokenizer.Reset keeps the dialect (documented 'Keywords preserved'; Tokenize calls it)",
